@@ -99,6 +99,7 @@ class Pts:
         self.F = fn.facts
         self.ret_alias = ret_alias or (lambda p: None)
         self.pts = defaultdict(set)
+        self.fpts = defaultdict(set)  # (local, field index) -> pts, for tuple/struct aggregates of references
         self.slice_sites = {}  # ('[]' produced at call bb) -> bb
         self._run()
 
@@ -191,10 +192,15 @@ class Pts:
                         src = self._val_pts({"k": "copy", "place": rv["place"]})
                     elif k == "aggregate":
                         src = set()
-                        for o in rv["ops"]:
+                        for oi, o in enumerate(rv["ops"]):
                             v = self._val_pts(o)
                             if v:
                                 src |= v
+                                if not dst["proj"]:
+                                    before = len(self.fpts[(dst["local"], oi)])
+                                    self.fpts[(dst["local"], oi)] |= v
+                                    if len(self.fpts[(dst["local"], oi)]) != before:
+                                        changed = True
                     if src:
                         if not dst["proj"]:
                             if self._add(dst["local"], src):
@@ -225,6 +231,8 @@ class Pts:
         if not place["proj"]:
             return set(self.pts.get(base, ())) or None
         onlyfields = all(e["k"] in ("field", "downcast") for e in place["proj"])
+        if len(place["proj"]) == 1 and place["proj"][0]["k"] == "field" and self.fpts.get((base, place["proj"][0]["i"])):
+            return set(self.fpts[(base, place["proj"][0]["i"])])
         if onlyfields and self.pts.get(base):
             return set(self.pts[base])
         # loaded from memory: only meaningful if the loaded type is pointer-like
